@@ -230,6 +230,33 @@ def _view(V):
     M.ensure_rect(V, e, "post/rect")
 
 
+@P.unit(f"{CONF}.__init__", name="a Conformer handle taken before append/extend is still a live view afterwards",
+        functions=[f"{CONF}._coords", f"{CONF}._atomic_charges", f"{ENS}.append", f"{ENS}.extend"])
+def _view_after_growth(V):
+    I, st = V.I, V.st
+    how = V.choose(["append", "extend"], "growth")
+    e = M.mk_ens(V, 2, 2)
+    V.witness(lambda ev: {"op": "view-after-growth", "how": how, "signature": "view-after-growth"})
+    V.cover()
+    c = I.getitem(e, 1)                                    # the handle is taken first ...
+    g = M.mk_mol(V, "Molecule", 2, ((0, 1),), name="g")
+    out = V.method(e, how, [g] if how == "append" else [ListV([g])], qual=f"{ENS}.{how}")     # ... then the parent arrays are re-bound
+    V.ensure("live/growth-returns", z3.BoolVal(out.returned))
+    if not out.returned:
+        return
+    cur = e.fields["_coords"].data
+    V.ensure("live/handle-reads-the-current-row", I.and_(_rows_equal(I, I.getattr_(c, "coords").data, cur[1]),
+                                                        _rows_equal(I, I.getattr_(c, "atomic_charges").data, e.fields["_atomic_charges"].data[1])))
+    nv, nq = V.sym("nv", "real"), V.sym("nq", "real")
+    I.setitem(I.getattr_(c, "coords"), (0, 2), nv)
+    I.setitem(I.getattr_(c, "atomic_charges"), 1, nq)
+    V.ensure("live/in-place-writes-reach-the-ensemble", I.and_(M._same(I, e.fields["_coords"].data[1][0][2], nv), M._same(I, e.fields["_atomic_charges"].data[1][1], nq)))
+    newc = ListV([ListV([V.sym(f"m{j}{k}", "real") for k in range(3)]) for j in range(2)])
+    I.setattr_(c, "coords", newc)
+    V.ensure("live/assignment-reaches-the-ensemble", _rows_equal(I, e.fields["_coords"].data[1], [list(x.items) for x in newc.items]))
+    M.ensure_rect(V, e, "live/rect")
+
+
 # ------------------------------------------------------------------------------------------ iteration
 @P.unit(f"{ENS}.__iter__", name="iteration visits each conformer once, also nested", functions=[f"{ENS}.__iter__", f"{ENS}.__next__"])
 def _iteration(V):
